@@ -49,6 +49,7 @@ func init() {
 			need(m, &out, "streams_with_repeated_tables", 30)
 			need(m, &out, "data_built_by_a_retaining_parser", 300)
 			need(m, &out, "size_boundary_alias_runs", 10)
+			need(m, &out, "tiny_unit_streams", 250)
 			need(m, &out, "endurance_packets_held_and_rechecked", 300000)
 			return out
 		},
@@ -105,7 +106,68 @@ func remuxIndependenceCase(c *mon.Ctx, idx int64, r *rand.Rand) {
 	c.Case(mon.HashBytes("remux", in), n > 0)
 }
 
+// tinyUnitsCase: units of one or two payload bytes (00, 00 00: the beginning of a start code that never comes) between ordinary
+// PES units. What a Demuxer makes of them may not depend on what any Demuxer — this one or another — has parsed before (the
+// reassembly buffers are pooled): other instances work on PES and table streams first, then the stream is demultiplexed again.
+func tinyUnitsCase(c *mon.Ctx, idx int64, r *rand.Rand) {
+	ls := newLongStream()
+	ls.pes(0x101, 0xc0, 1, longData(0x101, 1, 20+r.IntN(300)), true)
+	n := 0
+	for k := 0; k < 2+r.IntN(4); k++ {
+		tiny := [][]byte{{0}, {0, 0}, {0, 0}, {0xff}, {0, 1}}[r.IntN(5)]
+		ls.packet(0x101, true, tiny) // a unit of its own: the next packet starts one as well
+		n++
+		ls.pes(0x101, 0xc0, int64(10+k), longData(0x101, 10+k, 1+r.IntN(500)), r.IntN(2) == 0)
+	}
+	alone, errsAlone, pn := drainData(ls.b)
+	data := map[string]any{"stream": mon.Hex(ls.b, 1500)}
+	if pn != "" {
+		c.Violate("C16/tiny/panic", "tiny-units", idx, pn, data)
+		return
+	}
+	// other instances load the pooled buffers with PES units and tables
+	other := richStream(r).Bytes
+	for k := 0; k < 3; k++ {
+		drainData(other)
+		drainData(ls.b)
+	}
+	after, errsAfter, pn := drainData(ls.b)
+	if pn != "" {
+		c.Violate("C16/tiny/panic", "tiny-units", idx, pn, data)
+		return
+	}
+	c.Count("tiny_unit_streams")
+	c.Add("units_shorter_than_a_start_code", int64(n))
+	c.Case(mon.HashBytes("c16tiny", ls.b), true)
+	if len(errsAlone) != len(errsAfter) || len(alone) != len(after) {
+		c.Violate("C16/history/result-depends-on-earlier-instances:tiny-units", "tiny-units", idx, fmt.Sprintf("a new Demuxer after other instances have worked: %d data and %d errors (first: %v); the first Demuxer of the process: %d data and %d errors", len(after), len(errsAfter), firstErr(errsAfter), len(alone), len(errsAlone)), data)
+		return
+	}
+	for k := range alone {
+		if d := mon.Diff(after[k], alone[k], nil); d != "" {
+			c.Violate("C16/history/result-depends-on-earlier-instances:tiny-units", "tiny-units", idx, fmt.Sprintf("datum %d: %s", k, d), data)
+			return
+		}
+	}
+	// and both are what the stream carries: the units shorter than a start code hold no PES
+	if d := ls.compare(after); d != "" || len(errsAfter) > 0 {
+		c.Violate("C16/tiny/differs-from-what-the-stream-carries", "tiny-units", idx, fmt.Sprintf("%s; errors: %v", d, errsAfter), data)
+	}
+}
+
+func firstErr(es []error) error {
+	if len(es) == 0 {
+		return nil
+	}
+	return es[0]
+}
+
 func runC16(c *mon.Ctx) {
+	for i := int64(0); i < c.Pick(300, 10000); i++ {
+		if c.Mine("tiny-units", i) {
+			tinyUnitsCase(c, i, c.Rng("tiny-units", i))
+		}
+	}
 	nrx := c.Pick(200, 10000)
 	for i := int64(0); i < nrx; i++ {
 		if c.Mine("remux", i) {
